@@ -461,9 +461,13 @@ def main(tier):
         # the library's internal names itself (build.hostile_host)
         pm = pick[np.sort(rng.choice(len(pick), size=min(len(pick), 4000 if tier == 'quick' else 60000), replace=False))]
         nbad_m = ncalls_m = 0
-        for pb in build.PROJECT_BUILDS:         # default options / release without assertions / plain char unsigned (execlib.PB_WHAT)
+        hosts = [(pb, {'LD_PRELOAD': build.hostile_host('kissel')['so']}) for pb in build.EXEC_BUILDS]      # default options / release without assertions / plain char unsigned / static archive
+        # ... and the monitor's build in hosts with another floating-point set-up: sticky status flags left raised by the host's own arithmetic,
+        # x87 precision control single, invalid / divide-by-zero / overflow exceptions trapping
+        hosts += [('plain', {'XV_FPFLAGS': '1'}), ('plain', {'XV_X87PC': '24'}), ('plain', {'XV_FPTRAP': '1'})]
+        for pb, henv in hosts:
             try:
-                Lm = execlib.Lib('kissel', pb, shuffle=False, env={'LD_PRELOAD': build.hostile_host('kissel')['so']})
+                Lm = execlib.Lib('kissel', pb, shuffle=False, env=henv)
                 resm = Lm.multi([(fname, aZ[pm], aX[pm], aE[pm]) for fname in names])
                 for fname, rm in zip(names, resm):
                     ok0, v0, _ = outs[fname]
@@ -472,13 +476,20 @@ def main(tier):
                     bad = np.nonzero((rm.v.view('u8') != v0.view('u8')) | (rm.ok != ok0))[0]
                     nbad_m += len(bad)
                     for k in bad[:2]:
+                        if pb == 'plain':
+                            hk = sorted(henv)[0]
+                            ck.violation('c08:%s:result-depends-on-the-floating-point-set-up-of-the-host:%s' % (fname, hk), '%s(%d,%d,%.17g) = %r (%s) in a host with %s, %r (%s) otherwise' % (
+                                fname, int(aZ[pm][k]), int(aX[pm][k]), float(aE[pm][k]), float(rm.v[k]), 'ok' if rm.ok[k] else 'error: %s' % rm.msg(k), henv, float(v0[k]), 'ok' if ok0[k] else 'error'),
+                                dict(call='%s(%d,%d,%.17g)' % (fname, int(aZ[pm][k]), int(aX[pm][k]), float(aE[pm][k])), config='kissel', host=henv))
+                            continue
                         ck.violation('c08:%s:project-build-differs-from-the-monitor-build%s' % (fname, '' if pb == 'meson' else ':' + pb[6:]),
                                      '%s(%d,%d,%.17g) = %r (%s) in the library built by meson (%s), %r (%s) in the monitor\'s build of the same sources' % (
                                          fname, int(aZ[pm][k]), int(aX[pm][k]), float(aE[pm][k]), float(rm.v[k]), 'ok' if rm.ok[k] else 'error: %s' % rm.msg(k), execlib.PB_WHAT[pb], float(v0[k]), 'ok' if ok0[k] else 'error'),
                                      dict(call='%s(%d,%d,%.17g)' % (fname, int(aZ[pm][k]), int(aX[pm][k]), float(aE[pm][k])), config='kissel', build=pb))
             except execlib.ExecCrash as ex:
-                ck.violation('c08:%s:project-build-dies%s' % (what, '' if pb == 'meson' else ':' + pb[6:]), 'the %s variants kill the executor (rc %d) in the library built by meson (%s): %s' % (what, ex.rc, execlib.PB_WHAT[pb], ex.tail[-200:]),
-                             dict(config='kissel', build=pb))
+                ck.violation('c08:%s:project-build-dies%s' % (what, '' if pb == 'meson' else ':' + pb.replace('meson-', '') + ('' if pb != 'plain' else ':' + sorted(henv)[0])),
+                             'the %s variants kill the executor (rc %d) in %s: %s' % (what, ex.rc, ('the library built by meson (%s)' % execlib.PB_WHAT[pb]) if pb != 'plain' else 'a host with %r' % henv, ex.tail[-200:]),
+                             dict(config='kissel', build=pb, host=henv))
         COUNT['kissel'] = COUNT.get('kissel', 0) + ncalls_m
         inter[what] = dict(tuples=int(len(pick)), calls=int(len(seq)), differing=int(nbad), calls_in_the_project_build=int(ncalls_m), differing_in_the_project_build=int(nbad_m))
     st['per_function']['interleaved-variants'] = inter
